@@ -294,4 +294,24 @@ PROPS = {
             rapid("c18", "TestPropSyntax", quick=(2500, 6), thorough=(40000, 14)),
         ],
     },
+    "C12": {
+        "level": "exploration",
+        "rule": "a real imapclient against a conformant scripted server: LOGIN, SELECT (OK or NO, with [CLOSED] on re-select), then 1..3 "
+                "rounds of 1..4 pipelined commands drawn so that RFC 9051 5.5 leaves no ambiguity (NOOP, CAPABILITY, STATUS on distinct "
+                "mailboxes, LIST, FETCH/STORE on disjoint sequence ranges, UID FETCH, UID SEARCH answered by ESEARCH with TAG "
+                "correlators, plain SEARCH, APPEND with a synchronising literal that is continued or refused with the tagged response, "
+                "ENABLE, EXPUNGE); the script answers the commands in a drawn permutation, each with a drawn outcome OK/NO/BAD with or "
+                "without response code, its own untagged data, and 0..2 unsolicited updates (EXISTS, EXPUNGE, FLAGS, PERMANENTFLAGS, "
+                "FETCH FLAGS for unrelated messages, ALERT) before each. A reference interpreter of the transcript predicts, per "
+                "command, the completion (its own tag's status and code, exactly once) and the data addressed to it, the unilateral "
+                "handler calls in order, and Client.State()/Client.Mailbox() (name, count, flags, permanent flags), compared right "
+                "after Wait returns and after every round; a NOOP must succeed after every round. Non-trivial: a round answered out "
+                "of order or with an interleaved unsolicited update; distinct by hash of the transcript.",
+        "assumptions": ["unsolicited FLAGS/PERMANENTFLAGS updates carry non-empty lists (the handler API cannot distinguish an empty list from 'unchanged')",
+                        "no EXPUNGE update is sent while an EXPUNGE command is pending, no untagged SEARCH while two searches are pending (RFC 9051 5.5)",
+                        "unsolicited FETCH data is compared as a multiset (handlers run in their own goroutines)"],
+        "units": [
+            rapid("c12", "TestPropRouting", quick=(1200, 6), thorough=(20000, 14)),
+        ],
+    },
 }
